@@ -9,6 +9,7 @@ import TracingModel.Core.DateTime
 import TracingModel.Spec.CivilJudge
 import TracingModel.Core.LevelsDriver
 import TracingModel.Core.CoreDriver
+import TracingModel.Core.RegistryDriver
 
 open TM TM.Wire
 
@@ -42,6 +43,10 @@ def dispatch (prop mode : String) : Option (List String → String) :=
   | "C01", "spec" => some CoreDriver.spec
   | "C02", "model" => some CoreDriver.model
   | "C02", "spec" => some CoreDriver.spec
+  | "C05", "model" => some RegistryDriver.model
+  | "C05", "spec" => some RegistryDriver.spec
+  | "C06", "model" => some RegistryDriver.model
+  | "C06", "spec" => some RegistryDriver.spec
   | "C19", "model" => some LevelsDriver.model
   | "C19", "judge" => some LevelsDriver.judge
   | "C20", "model" => some c20Model
